@@ -51,6 +51,7 @@ import SwcVerif.Model.AlgoRunBranchTree
 import SwcVerif.Model.AlgoRunWriter
 import SwcVerif.Model.AlgoRunCtor
 import SwcVerif.Model.AlgoRunCtorTree
+import SwcVerif.Model.AlgoRunCtorInit
 
 def dispatch (op : String) (args : List String) : String :=
   match op with
@@ -132,6 +133,7 @@ def dispatch (op : String) (args : List String) : String :=
   | "gswcwrite" | "gioswc" => AlgoRun.handleWriter op args
   | "gwrap" => AlgoRun.handleWrap args
   | "gwraptree" => AlgoRun.handleWrapTree args
+  | "gtreeinit" => AlgoRun.handleTreeInit args
   | "gcopying" => AlgoRun.handleCopying args
   | _ => "bad-op"
 
